@@ -55,6 +55,10 @@ theorem gen_exact :
       ['e', 'n', 'd', '.', 'O', 'p', ' ', '!', '=', ' ', 's', 'y', 'n', 't', 'a', 'x', '.', 'O', 'p', 'E', 'n', 'd', 'T', 'e', 'x', 't'],
       ['l', 'e', 'n', '(', 'r', 'e', '.', 'S', 'u', 'b', ')', ' ', '=', '=', ' ', '0']] := by decide
 
+/-- `=~` is replaced by `=` tests joined with `OR`, `!~` by `!=` tests joined with `AND`. -/
+theorem gen_rewriteOps :
+    rewriteOps = [(Token.EQ.toNat, Token.OR.toNat), (Token.NEQ.toNat, Token.AND.toNat)] := by decide
+
 /-! ## `matchRegex`: the literal list is the language -/
 
 /-- **The literals are exactly the language.** If `matchRegex` answers `L` for a tree, then
